@@ -457,7 +457,53 @@ def h_temporal(ctx, k, pool, schemes=None, variants=4, rows=None):
 
     ctx.forall(goal_build, None, "goal-differs", "goal verdict differs in some state" + text)
     _compare_metric(ctx, P, P2, rho, RR)
+    _tt_plan_round_trip(ctx, env, which, w, P, P2, rho)
     ctx.witness("program")
+
+
+TT_TIMES = [(0, 1), (tvio.Fraction(1, 2), tvio.Fraction(5, 2)), (tvio.Fraction(5, 4), tvio.Fraction(1, 2)), (3, tvio.Fraction(7, 4)),
+            (tvio.Fraction(1, 10), tvio.Fraction(3, 10)), (tvio.Fraction(9, 4), 2)]
+
+
+def _tt_plan_round_trip(ctx, env, which, w, P, P2, rho):
+    """time-triggered plans (start times and durations with finite decimal expansions, start != duration so that a swapped column
+    shows): written with get_plan, parsed back against P' and against P; same instances, times and durations; same verdict of the
+    real TimeTriggeredPlanValidator on (P, plan) and (P', plan')."""
+    from unified_planning.engines.plan_validator import TimeTriggeredPlanValidator
+    from unified_planning.model import DurativeAction
+    from unified_planning.plans import ActionInstance, TimeTriggeredPlan
+
+    em = env.expression_manager
+    objs = list(P.all_objects)
+    for shift in range(3):
+        items = []
+        for j, a in enumerate(P.actions):
+            for r in range(2):
+                st, du = TT_TIMES[(2 * j + r + 2 * shift) % len(TT_TIMES)]
+                params = tuple(em.ObjectExp(objs[(j + r + i) % len(objs)]) for i, _p in enumerate(a.parameters))
+                items.append((tvio.Fraction(st) + 4 * r, ActionInstance(a, params), tvio.Fraction(du) if isinstance(a, DurativeAction) else None))
+        plan = TimeTriggeredPlan(items, env)
+        text = w.get_plan(plan)
+        with tvio.global_env(env):
+            rd = _reader(env, which)
+            plan2 = rd.parse_plan_string(P2, text)
+            back = rd.parse_plan_string(P, text, w.get_item_named)
+        got = sorted((tvio.Fraction(t), ai.action.name, tuple(str(x) for x in ai.actual_parameters), None if d is None else tvio.Fraction(d))
+                     for t, ai, d in plan2.timed_actions)
+        exp = sorted((t, rho.actions[ai.action.name], tuple(rho.objects[x.object().name] for x in ai.actual_parameters), d) for t, ai, d in items)
+        ctx.check(got == exp, "tt-plan-instances-differ", f"time-triggered plan written as {text!r} parses back (against P') to {got}, expected {exp}")
+        ctx.check(back == plan, "tt-plan-inverse-differs", f"time-triggered plan {plan} written as {text!r} parses back through get_item_named to {back}")
+
+        def verdict(prob, pl):
+            try:
+                with tvio.global_env(env):
+                    return TimeTriggeredPlanValidator(environment=env).validate(prob, pl).status.name
+            except Exception as e:  # noqa: BLE001 -- the same refusal on both sides is agreement
+                return "raises " + type(e).__name__
+
+        v1, v2 = verdict(P, plan), verdict(P2, plan2)
+        ctx.check(v1 == v2, "tt-plan-validity-differs", f"time-triggered plan {text!r}: {v1} on the original problem, {v2} on the re-read problem")
+        ctx.witness("tt-plan")
 
 
 # ---------------------------------------------------------------------------------------------------------------
